@@ -80,7 +80,7 @@ REQUIRED = ["oracle.full-reread", "oracle.full-reread.two-or-more-interactions",
             "reach.source.sup-xy", "reach.source.lambda", "reach.source.sup-file", "reach.source.result",
             "reach.source.saved", "reach.source.syn", "reach.source.custom", "reach.source.sup-src",
             "oracle.params-fresh", "oracle.params-fresh.after-transformation", "oracle.params-during-read", "oracle.params.after-lookup-before-first-pull",
-            "oracle.snapshot.params-lookup", "oracle.pickle-after-reads", "oracle.pickle-after-abandoned-read", "reach.pickle-while-a-cache-is-part-filled",
+            "oracle.snapshot.params-lookup", "oracle.pickle-after-reads", "oracle.pickle-after-abandoned-read", "reach.pickle-while-a-cache-is-part-filled", "histories.transformed-while-read-state-is-part-way",
             "reach.logged.pmf-learner", "reach.logged.pmf-learner.seed-zero", "reach.logged.learner-hands-out-own-params-dict",
             "oracle.params.after-abandoned-read-only", "reach.nested-categorical.encoded", "reach.nested-categorical.encoded.after-partial",
             # large-N cases (reference read of at least LARGE_N interactions)
@@ -383,9 +383,12 @@ def gen_contexts(rng, n, profile):
         kk = {k: ("str" if profile == "sparse-mixed" and rng.random() < .4 else "num") for k in SKEYS}
         info["keykinds"] = kk
         out = []
+        late = "e" if rng.random() < .4 else None      # a feature name that first shows up in the second half of the data
+        if late: kk[late] = "num"
         for i in range(n):
             ks = [k for k in SKEYS if rng.random() < .6] or [rng.choice(SKEYS)]
             if i == 0 and rng.random() < .6: ks = list(SKEYS)
+            if late and i >= max(1, n // 2) and (i == n - 1 or rng.random() < .6): ks = ks + [late]
             def val(k):
                 if profile == "sparse-none" and rng.random() < .3 and not (i == 0 and rng.random() < .7): return None
                 return rng.choice(STRS) if kk[k] == "str" else rng.choice(NZNUMS)
@@ -768,6 +771,7 @@ def gen_filter(rng, st, force=None):
         if st["ctx"] in ("dense-num",) and a["context"]: pass
     return {"f": name, "a": a}
 
+STATEFUL_WHILE_READ = ("Cache",)
 OPS_ALL = ["FULL", "PARTIAL", "PARAMS", "MATERIALIZE", "CACHE", "CHUNK", "PICKLE", "SAVE"]
 def op_peek(op):
     """position (number of interactions pulled so far) at which params are looked up INSIDE the read, or None.
@@ -1872,6 +1876,15 @@ def run_shard(ctx):
         spec = gen_case(ctx.rng, ctx.tier)
         for sig, what, witness in check_case(spec, ctx):
             ctx.violation(sig, what, witness)
+        if not spec.get("coll") and any(f["f"] in STATEFUL_WHILE_READ or (f["f"] == "Densify" and f["a"].get("method") == "lookup") for f in spec["chain"]):
+            # filters that build up state WHILE they are read (a name->column table, a part-filled cache): the same pipeline is also
+            # pickled / saved when that state is part way (a read dropped after k interactions), and the copy is read in full twice
+            import copy as _copy
+            d = _copy.deepcopy(spec)
+            d["history"] = [["PARTIAL", ctx.rng.choice([1, 2, 3, 5]), ctx.rng.choice(["close", "drop"])], ["PICKLE"], ["FULL"], ["FULL"]]
+            ctx.count("histories.transformed-while-read-state-is-part-way")
+            for sig, what, witness in check_case(d, ctx):
+                ctx.violation(sig, what, witness)
         if i < 1: ctx.sample({"source": _src_label(spec["source"]), "chain": [f["f"] for f in spec["chain"]], "history": spec["history"], "view": spec["view"]})
         i += 1
     ctx.count("histories", i); ctx.count("histories.large-n", j); ctx.count("histories.collection", c)
